@@ -343,12 +343,35 @@ func (c *Ctx) symxRun() *simpleVerdict {
 	type special struct {
 		regs   []symReg
 		inputs []string
+		later  []symReg // registered after the inputs were read once; then they are read again
 	}
 	specials := []special{
-		{[]symReg{{"=:~x", 120}}, []string{"=:~x", "=:~", "=:~a", "=:a", "=a", "=", "=:~xx"}},
-		{[]symReg{{"<<<<<", 121}, {"<", 122}}, []string{"<<<<<", "<<<<", "<<<a", "<<a", "<a", "<<<<<<"}},
-		{[]symReg{{"=<>=", 123}, {"=<", 124}}, []string{"=<>=", "=<>", "=<>a", "=<a", "=a"}},
-		{[]symReg{{"≠", 125}, {"é=", 126}, {"«»", 127}, {"=é", 128}}, []string{"≠", "≠a", "é=", "é", "éa", "«»", "«a", "=é", "=a", "«»«»"}},
+		{[]symReg{{"=:~x", 120}}, []string{"=:~x", "=:~", "=:~a", "=:a", "=a", "=", "=:~xx"}, nil},
+		{[]symReg{{"<<<<<", 121}, {"<", 122}}, []string{"<<<<<", "<<<<", "<<<a", "<<a", "<a", "<<<<<<"}, nil},
+		{[]symReg{{"=<>=", 123}, {"=<", 124}}, []string{"=<>=", "=<>", "=<>a", "=<a", "=a"}, nil},
+		{[]symReg{{"≠", 125}, {"é=", 126}, {"«»", 127}, {"=é", 128}}, []string{"≠", "≠a", "é=", "é", "éa", "«»", "«a", "=é", "=a", "«»«»"}, nil},
+		// unregistered prefixes that contain characters of two and three bytes (symbols are made of characters up to U+FFFE, the range the maps are configured for)
+		{[]symReg{{"<≤≥", 130}}, []string{"<≤≥", "<≤<", "<≤", "<a", "<≤a", "<≤≥≥"}, nil},
+		{[]symReg{{"+±+", 131}, {"+", 132}}, []string{"+±+", "+±-", "+±", "+a", "+"}, nil},
+
+		{[]symReg{{"é€ж=", 134}, {"é", 135}}, []string{"é€ж=", "é€жa", "é€a", "éa", "é€ж"}, nil},
+		// registrations after the table was already used: a prefix registered late, longer symbols registered late
+		{[]symReg{{"=:~", 140}}, []string{"=:a", "=:~", "=:", "=a", "=:~~"}, []symReg{{"=:", 141}}},
+		{[]symReg{{"<<<", 142}}, []string{"<<a", "<<<", "<a", "<<<<", "<<"}, []symReg{{"<<", 143}, {"<", 144}}},
+		{[]symReg{{"<=", 145}}, []string{"<=>", "<=a", "<=>>", "<", "<="}, []symReg{{"<=>", 146}}},
+		{[]symReg{{"<", 147}}, []string{"<", "<>", "<=>", "<<"}, []symReg{{"<>", 148}, {"<=>", 149}}},
+	}
+	for _, b := range big {
+		var first, rest []symReg
+		for k, t := range b {
+			r := symReg{t, int64(150 + k)}
+			if k < 2 {
+				first = append(first, r)
+			} else {
+				rest = append(rest, r)
+			}
+		}
+		specials = append(specials, special{first, []string{"<=>", "<<=", "<>", "<=a", "===", ">>=", "<<", "<a", "=", ">>>", "!="}, rest})
 	}
 	ctor := c.MustFunc("tokenizers/generic", "", "NewGenericSymbolState")
 	st := ctor.Signature.Results().At(0).Type()
@@ -397,64 +420,88 @@ func (c *Ctx) symxRun() *simpleVerdict {
 				if !okSet {
 					continue
 				}
-				for _, in := range inputs {
-					m.steps = 0
-					v.runs++
-					if i%50 == 0 {
-						noteSample("SYM.model/sets", fmt.Sprintf("%s on input %q", strings.Join(regs, "; "), in))
-					}
-					sc, out := m.Call(newScanner, in)
-					if out.kind != "ok" {
-						v.undec = "NewStringScanner: " + out.why
-						return
-					}
-					tok, out := m.Call(c.lookupMethod(st, "NextToken"), state, mIface{t: scT, v: sc}, mNil)
-					where := fmt.Sprintf("after %s, NextToken on %q", strings.Join(regs, "; "), in)
-					if len(regs) == 0 {
-						where = fmt.Sprintf("with no symbol registered, NextToken on %q", in)
-					}
-					if out.kind == "panic" {
-						v.bad = where + " panics: " + out.why
-						continue
-					}
-					if out.kind != "ok" {
-						v.undec = where + ": " + out.why
-						continue
-					}
-					val, o1 := m.Call(c.lookupMethod(tokT, "Value"), tok)
-					typ, o2 := m.Call(c.lookupMethod(tokT, "Type"), tok)
-					if o1.kind != "ok" || o2.kind != "ok" {
-						v.undec = where + ": token accessors " + o1.why + o2.why
-						continue
-					}
-					// what is left in the scanner
-					var rest strings.Builder
-					for k := 0; k < 10; k++ {
-						r, o := m.Call(c.lookupMethod(scT, "Read"), sc)
-						if o.kind != "ok" {
+				var later []symReg
+				if i >= len(sets) {
+					later = specials[i-len(sets)].later
+				}
+				for stage := 0; stage < 2; stage++ {
+					if stage == 1 {
+						if len(later) == 0 {
 							break
 						}
-						n, _ := r.(int64)
-						if n < 0 {
+						for _, r := range later {
+							regs = append(regs, fmt.Sprintf("(after the first reads) Add(%q,%d)", r.text, r.typ))
+							if _, out := m.Call(c.lookupMethod(st, "Add"), state, r.text, r.typ); out.kind != "ok" {
+								if out.kind == "panic" && v.bad == "" {
+									v.bad = strings.Join(regs, "; ") + " panics: " + out.why
+								}
+								okSet = false
+							}
+						}
+						if !okSet {
 							break
 						}
-						rest.WriteRune(rune(n))
+						set = append(append([]symReg{}, set...), later...)
 					}
-					wantVal, wantTyp, typed := symModel(set, in)
-					gv, _ := val.(string)
-					gt, _ := typ.(int64)
-					if v.bad != "" {
-						continue
-					}
-					switch {
-					case gv != wantVal:
-						v.bad = fmt.Sprintf("%s returns %q; the longest registered symbol that is a prefix of the input (or else its first character) is %q", where, gv, wantVal)
-					case gv+rest.String() != in:
-						v.bad = fmt.Sprintf("%s returns %q and leaves %q in the scanner: it does not consume exactly the symbol", where, gv, rest.String())
-					case typed && gt != wantTyp:
-						v.bad = fmt.Sprintf("%s returns %q with token type %d; the symbol was registered with type %d", where, gv, gt, wantTyp)
-					case !typed && gt != symbolType:
-						v.bad = fmt.Sprintf("%s returns the unregistered character %q with token type %d; a single character that is no registered symbol is a plain Symbol token (%d) whatever longer symbols start with it", where, gv, gt, symbolType)
+					for _, in := range inputs {
+						m.steps = 0
+						v.runs++
+						if i%50 == 0 {
+							noteSample("SYM.model/sets", fmt.Sprintf("%s on input %q", strings.Join(regs, "; "), in))
+						}
+						sc, out := m.Call(newScanner, in)
+						if out.kind != "ok" {
+							v.undec = "NewStringScanner: " + out.why
+							return
+						}
+						tok, out := m.Call(c.lookupMethod(st, "NextToken"), state, mIface{t: scT, v: sc}, mNil)
+						where := fmt.Sprintf("after %s, NextToken on %q", strings.Join(regs, "; "), in)
+						if len(regs) == 0 {
+							where = fmt.Sprintf("with no symbol registered, NextToken on %q", in)
+						}
+						if out.kind == "panic" {
+							v.bad = where + " panics: " + out.why
+							continue
+						}
+						if out.kind != "ok" {
+							v.undec = where + ": " + out.why
+							continue
+						}
+						val, o1 := m.Call(c.lookupMethod(tokT, "Value"), tok)
+						typ, o2 := m.Call(c.lookupMethod(tokT, "Type"), tok)
+						if o1.kind != "ok" || o2.kind != "ok" {
+							v.undec = where + ": token accessors " + o1.why + o2.why
+							continue
+						}
+						// what is left in the scanner
+						var rest strings.Builder
+						for k := 0; k < 10; k++ {
+							r, o := m.Call(c.lookupMethod(scT, "Read"), sc)
+							if o.kind != "ok" {
+								break
+							}
+							n, _ := r.(int64)
+							if n < 0 {
+								break
+							}
+							rest.WriteRune(rune(n))
+						}
+						wantVal, wantTyp, typed := symModel(set, in)
+						gv, _ := val.(string)
+						gt, _ := typ.(int64)
+						if v.bad != "" {
+							continue
+						}
+						switch {
+						case gv != wantVal:
+							v.bad = fmt.Sprintf("%s returns %q; the longest registered symbol that is a prefix of the input (or else its first character) is %q", where, gv, wantVal)
+						case gv+rest.String() != in:
+							v.bad = fmt.Sprintf("%s returns %q and leaves %q in the scanner: it does not consume exactly the symbol", where, gv, rest.String())
+						case typed && gt != wantTyp:
+							v.bad = fmt.Sprintf("%s returns %q with token type %d; the symbol was registered with type %d", where, gv, gt, wantTyp)
+						case !typed && gt != symbolType:
+							v.bad = fmt.Sprintf("%s returns the unregistered character %q with token type %d; a single character that is no registered symbol is a plain Symbol token (%d) whatever longer symbols start with it", where, gv, gt, symbolType)
+						}
 					}
 				}
 			}
